@@ -10,17 +10,20 @@ Local Open Scope R_scope.
 Lemma q_kelvin : Q2R (5463 # 20) = 27315 / 100.
 Proof. unfold Q2R. cbn [Qnum Qden]. lra. Qed.
 
-Lemma apod_as_config_spec a : apod_as_config R_ops a = apod_spec a.
-Proof. destruct a; cbn [apod_as_config apod_spec]; try reflexivity. rewrite u_micro_R. reflexivity. Qed.
-
-Theorem as_config_matches_spec U s : as_config R_ops U s = as_config_spec export_rounds_idler_waist_position U s.
+Lemma apod_as_config_spec a : apod_as_config R_ops a = apod_spec export_rounds_gaussian_fwhm a.
 Proof.
-  unfold as_config, as_config_spec, crystal_as_config, poling_as_config, beam_spec, celsius_of_kelvin, export_rounds_idler_waist_position.
-  rewrite !sigfigs_R, ?u_deg_R, ?u_micro_R, ?u_nano_R, ?u_pico_R.
-  cbn [ndiv nsub nQ R_ops]. rewrite q_kelvin.
-  destruct (s_pp s) as [| period sg a].
-  - reflexivity.
-  - rewrite !sigfigs_R, ?u_micro_R, apod_as_config_spec. reflexivity.
+  destruct a; cbn [apod_as_config apod_spec]; try reflexivity.
+  unfold export_rounds_gaussian_fwhm. rewrite ?sigfigs_R, u_micro_R. reflexivity.
+Qed.
+
+Lemma poling_as_config_spec pp : poling_as_config R_ops pp = poling_spec export_rounds_gaussian_fwhm pp.
+Proof. destruct pp; cbn [poling_as_config poling_spec]; [reflexivity |]. rewrite sigfigs_R, u_micro_R, apod_as_config_spec. reflexivity. Qed.
+
+Theorem as_config_matches_spec U s : as_config R_ops U s = as_config_spec export_rounds_idler_waist_position export_rounds_gaussian_fwhm U s.
+Proof.
+  unfold as_config, as_config_spec, crystal_as_config, beam_spec, celsius_of_kelvin, export_rounds_idler_waist_position.
+  rewrite !sigfigs_R, ?u_deg_R, ?u_micro_R, ?u_nano_R, ?u_pico_R, poling_as_config_spec.
+  cbn [ndiv nsub nQ R_ops]. rewrite q_kelvin. reflexivity.
 Qed.
 
 Definition close4 (x y : R) : Prop := Rabs (x - y) <= / 20000.
@@ -57,7 +60,7 @@ Theorem roundtrip_within U s :
               exists z, bc_waist_pos_um ic = Param z /\ close4 z (s_zi s / micro)) /\
   match s_pp s with
   | PolOff => c_pp c = PCOff
-  | PolOn period _ a => exists p, c_pp c = PCConfig (Param p) (apod_spec a) /\ close4 p (period / micro)
+  | PolOn period _ a => exists p, c_pp c = PCConfig (Param p) (apod_spec export_rounds_gaussian_fwhm a) /\ close4 p (period / micro)
   end /\
   close4 (c_deff c) (s_deff s / (pico / u_volt U)).
 Proof.
@@ -76,7 +79,7 @@ Proof.
   | |- exists ic, Param _ = Param ic /\ _ => eexists; split; [reflexivity |]
   | |- _ => progress cbn [bc_wavelength_nm bc_phi_deg bc_theta_deg bc_theta_ext_deg bc_waist_um bc_waist_pos_um]
   end.
-  destruct (s_pp s); [reflexivity |]. eexists; split; [reflexivity | apply close4_round].
+  unfold poling_spec. destruct (s_pp s); [reflexivity |]. eexists; split; [reflexivity | apply close4_round].
 Qed.
 
 (* ------------------------------------------------------------------------------------------------------------------
@@ -87,9 +90,10 @@ Section Auto.
   Variable U : units num.
   Variable K : oracles num.
   Variable minpos : num.
+  Variable rj : bool.
 
   Theorem auto_is_explicit c s nf :
-    try_as_spdc_steps o U K minpos c = Ok (s, nf) ->
+    try_as_spdc_steps o U K minpos rj c = Ok (s, nf) ->
     (* crystal: the configuration's crystal, with angle 0 while the angle is still to be computed *)
     (cc_theta_deg (c_crystal c) = Auto ->
        optimum_theta o K (cfg_cs0 o c) (s_signal s) (s_pump s) = Ok (cs_theta (s_crystal s)) /\
@@ -117,7 +121,7 @@ Section Auto.
   Proof.
     unfold Config.try_as_spdc_steps.
     destruct (signal_step o K c) as [signal | |] eqn:Hs; cbn [bind]; try discriminate.
-    destruct (poling_step o K minpos c signal) as [[pp nfp] | |] eqn:Hp; cbn [bind fst snd]; try discriminate.
+    destruct (poling_step o K minpos rj c signal) as [[pp nfp] | |] eqn:Hp; cbn [bind fst snd]; try discriminate.
     destruct (theta_step o K c signal pp) as [cs | |] eqn:Ht; cbn [bind]; try discriminate.
     destruct (idler_step o K c signal cs pp) as [[idler nfi] | |] eqn:Hi; cbn [bind fst snd]; try discriminate.
     unfold finish_spdc. intros H. inversion H. subst s nf. clear H.
@@ -139,6 +143,7 @@ Section Auto.
       + right. split; [reflexivity | cbn; left; reflexivity].
     - intros pu a Ha. revert Hp. unfold poling_step, poling_of_cfg. rewrite Ha.
       fold (Config.cfg_pump o c). fold (Config.cfg_cs0 o c).
+      destruct (rj && neqb o pu (n0 o)); try discriminate.
       destruct (compute_sign o K signal (cfg_pump o c) (cfg_cs0 o c)) as [sg | |]; cbn [bind]; try discriminate.
       intros Hpp; inversion Hpp; subst. exists sg. split; reflexivity.
     - intros Ha. revert Hi. unfold idler_step. rewrite Ha. intros Hi. exists nfi. exact Hi.
@@ -148,3 +153,42 @@ Section Auto.
     - intros f Ha. unfold focus_step. rewrite Ha. reflexivity.
   Qed.
 End Auto.
+
+(* ------------------------------------------------------------------------------------------------------------------
+   FULL STRENGTH for the code as it is now (export_rounds_idler_waist_position = true, read off the source): EVERY exported
+   number -- including the idler waist position -- is the physical value rounded to 4 decimals, i.e. an integer multiple of
+   1e-4.  (Passed through unrounded: pump.spectrum_threshold and the apodization parameters.) *)
+Definition dec4 (x : R) : Prop := exists z : Z, x = IZR z / 10000.
+Lemma dec4_round4 x : dec4 (round4 x).
+Proof. apply round4_is_int. Qed.
+
+Definition beam_cfg_dec4 (c : beam_cfg R) : Prop :=
+  dec4 (bc_wavelength_nm c) /\ dec4 (bc_phi_deg c) /\ (forall t, bc_theta_deg c = Some t -> dec4 t) /\ dec4 (bc_waist_um c) /\
+  (forall z, bc_waist_pos_um c = Param z -> dec4 z).
+
+Theorem as_config_now_unit_table U s : as_config R_ops U s = as_config_spec true export_rounds_gaussian_fwhm U s.
+Proof. exact (as_config_matches_spec U s). Qed.
+
+Theorem exported_numbers_four_decimals U s :
+  let c := as_config R_ops U s in
+  dec4 (cc_phi_deg (c_crystal c)) /\ (forall t, cc_theta_deg (c_crystal c) = Param t -> dec4 t) /\
+  dec4 (cc_length_um (c_crystal c)) /\ dec4 (cc_temperature_c (c_crystal c)) /\
+  dec4 (pc_wavelength_nm (c_pump c)) /\ dec4 (pc_waist_um (c_pump c)) /\ dec4 (pc_bandwidth_nm (c_pump c)) /\
+  dec4 (pc_power_mw (c_pump c)) /\
+  beam_cfg_dec4 (c_signal c) /\ (forall ic, c_idler c = Param ic -> beam_cfg_dec4 ic) /\
+  (forall p a, c_pp c = PCConfig (Param p) a -> dec4 p) /\ dec4 (c_deff c).
+Proof.
+  intros c. subst c. rewrite as_config_now_unit_table. unfold as_config_spec, beam_cfg_dec4, beam_spec.
+  cbn [c_crystal c_pump c_signal c_idler c_pp c_deff cc_phi_deg cc_theta_deg cc_length_um cc_temperature_c
+       pc_wavelength_nm pc_waist_um pc_bandwidth_nm pc_power_mw bc_wavelength_nm bc_phi_deg bc_theta_deg bc_waist_um bc_waist_pos_um].
+  repeat match goal with
+  | |- _ /\ _ => split
+  | |- dec4 (round4 _) => apply dec4_round4
+  | |- forall t, Param _ = Param t -> _ => let H := fresh in intros ? H; inversion H; subst; apply dec4_round4
+  | |- forall t, Some _ = Some t -> _ => let H := fresh in intros ? H; inversion H; subst; apply dec4_round4
+  end.
+  - intros ic H. inversion H. subst ic.
+    cbn [bc_wavelength_nm bc_phi_deg bc_theta_deg bc_waist_um bc_waist_pos_um].
+    repeat split; try apply dec4_round4; intros ? H0; inversion H0; subst; apply dec4_round4.
+  - intros p a. unfold poling_spec. destruct (s_pp s); [discriminate |]. intros H. inversion H. subst. apply dec4_round4.
+Qed.
